@@ -9,6 +9,7 @@ import (
 
 	"github.com/gobuffalo/pop/v6"
 	"github.com/gofrs/uuid"
+	"github.com/ory/herodot"
 	"github.com/ory/x/popx"
 	"github.com/pkg/errors"
 
@@ -88,6 +89,10 @@ func internalPaginationFromOptions(opts ...x.PaginationOptionSetter) (*internalP
 	xp := x.GetPaginationOptions(opts...)
 	ip := &internalPagination{
 		PerPage: xp.Size,
+	}
+	if ip.PerPage < 0 {
+		ip.PerPage = defaultPageSize
+		return ip, errors.WithStack(herodot.ErrBadRequest.WithError("page size must not be negative"))
 	}
 	if ip.PerPage == 0 {
 		ip.PerPage = defaultPageSize
